@@ -4,7 +4,7 @@ list of executions."""
 WORLDS = {
     'render': {
         'pkg': 'zzverif/worlds/render',
-        'rewrite': [('.', 'sync'), ('runtime', 'sync')],
+        'rewrite': [('.', 'sync,sync/atomic'), ('runtime', 'sync,sync/atomic')],
         'needs_templ': True,
         'prep_hook': 'render_corpus',
         'export_files': {'runtime/zz_verif_export.go': '''package runtime
@@ -147,7 +147,7 @@ PROPS = {
             {'name': 'race', 'build': 'race', 'params': {'burst': 1}, 'env': {'GORACE': 'halt_on_error=1'}, 'no_guard': True},
         ],
         'tiers': {
-            'quick': {'chunk': 64, 'runs': 4000, 'stage_runs': {'race': 1500}, 'params': {'max_nodes': 10, 'max_tasks': 6, 'max_renders': 4, 'max_steps': 1500}, 'per_run_timeout': 5.0},
+            'quick': {'chunk': 64, 'runs': 8000, 'stage_runs': {'race': 1500}, 'params': {'max_nodes': 10, 'max_tasks': 6, 'max_renders': 4, 'max_steps': 1500}, 'per_run_timeout': 5.0},
             'thorough': {'chunk': 64, 'runs': 600000, 'stage_runs': {'race': 100000}, 'params': {'max_nodes': 16, 'max_tasks': 8, 'max_renders': 5, 'max_steps': 4000}, 'per_run_timeout': 10.0, 'shrink_budget_s': 300},
         },
         'rule': 'one run = N tasks x M renders (own component, shared component value, or templ.Handler request) over shared once handles, pools and (dev-mode runs) the '
